@@ -17,7 +17,7 @@ out = []
 out.append("## 7. Per property\n")
 out.append("Each subsection: **Model** · **Theorems** (names as in `Props_Cxx.v`; \"∀\" always means an unbounded Coq quantifier) · **Tie** (regenerated facts and correspondence) · **Seeded change** and what fired · **Modelled, not verified** · remarks.\n")
 out.append("### 7.0 Which check catches which seeded change\n")
-out.append("Forty breaking changes were produced in two rounds (`-a`, `-b`) by fresh sub-agents that were given only the property text and a scratch worktree (nothing from /verif; the second round was also told the one-line idea of the first, to force a different mechanism); each compiles, passes the 68 tests, and fails a demo test that passes on the unchanged tree (`seeded/<id>/meta.json` records the confirmation). `bin/seed_matrix` applies each to /repo's working tree, runs the *quick* check of its property, records what fired, and undoes it (`seeded/MATRIX.json`). \"obligation\" = a regenerated-fact theorem in `Props_Cxx.v` no longer compiles; \"model\" = the implementation's observations are not an execution of the model (trace rejected / outputs differ); \"oracle\" = the property stated directly on the observations fails (this is what supplies the concrete replay).\n")
+out.append("Sixty breaking changes were produced in three rounds (`-a`, `-b`, `-c`) by fresh sub-agents that were given only the property text and a scratch worktree (nothing from /verif; later rounds were also told the one-line ideas already used, to force a different mechanism); each compiles, passes the 68 tests, and fails a demo test that passes on the unchanged tree (`seeded/<id>/meta.json` records the confirmation). `bin/seed_matrix` applies each to /repo's working tree, runs the *quick* check of its property, records what fired, and undoes it (`seeded/MATRIX.json`). \"obligation\" = a regenerated-fact theorem in `Props_Cxx.v` no longer compiles; \"model\" = the implementation's observations are not an execution of the model (trace rejected / outputs differ); \"oracle\" = the property stated directly on the observations fails (this is what supplies the concrete replay).\n")
 out.append("| change | what it does | obligation | model | oracle | first violation reported |")
 out.append("|---|---|---|---|---|---|")
 SUM = {
@@ -64,6 +64,28 @@ SUM.update({
  "C19-b": "the verifier is skipped when the token after `Bearer ` is empty: `Authorization: Bearer ` is treated as no token at all",
  "C20-b": "`waitReadCloser` counts down `ContentLength` and reports EOF at zero: chunked uploads (length -1) end after their first read",
 })
+SUM.update({
+ "C01-c": "a 'fast path' in `param.MarshalJSON` writes int / uint / bool *kinds* with strconv: named scalar types with their own `MarshalJSON` are sent as the bare scalar",
+ "C02-c": "error responses are exempted from the response-id check of the HTTP and custom clients: a call handed another call's error returns it as its own",
+ "C03-c": "`tryReconnect` no longer records the connection error itself (a disguised revert of the F-C03 repair)",
+ "C04-c": "untagged methods without an error result are re-sent after the temporary connection error",
+ "C05-c": "`eTempWSError` renumbered to -32099 while `NewErrors` keeps the literal -1111111: the connection error no longer maps to `*RPCConnectionError`",
+ "C06-c": "a subscribing call stops watching its context while it is in flight: cancelling it before the channel response sends no cancel request",
+ "C07-c": "the client's buffering goroutine stops accepting values once 8192 are undelivered: a stalled subscriber blocks the whole connection",
+ "C08-c": "`closeChans` detaches all handlers and calls their sinks without the per-handler mutex: a close can overlap a value in delivery (send on closed channel)",
+ "C09-c": "batch elements whose id has an invalid type are skipped like notifications instead of being answered with an id-null error",
+ "C10-c": "`xrpc.ch.val` loses its own length check in a refactoring: `[chid]` for a registered channel indexes an empty slice and kills the process",
+ "C11-c": "`JSONRPCError.UnmarshalJSON` keeps `data` as raw JSON: codec errors that read their data back as the type they sent fail to convert",
+ "C12-c": "method lookup follows alias chains (up to 8 hops): an alias of an alias runs a method where not-found is due",
+ "C13-c": "the recovered panic value is attached as error `data`: a value encoding/json cannot marshal makes the whole error reply unencodable (no reply over ws)",
+ "C14-c": "`sendRequest` encodes into a pooled buffer that is returned to the pool before the bytes are written: concurrent senders overwrite each other's message",
+ "C15-c": "`handleOutChans` drains its channels after the connection ended instead of returning: a producer that stops without closing leaves the goroutine behind",
+ "C16-c": "the reverse client's formatter is captured when `WithReverseClient` is applied: listed before the formatter option it uses the default one",
+ "C17-c": "`setupPings` runs before the redialled connection is installed: its pong / ping handlers stay on the dead connection, the new link is dropped every timeout",
+ "C18-c": "client-side value delivery no longer takes the handler mutex: closing the client during a delivery panics with send on closed channel",
+ "C19-c": "the HTTP handler attaches a (nil) permission set to token-less requests too: the proxy's defaults no longer apply to anonymous callers",
+ "C20-c": "a read that returns data together with EOF is split into (n, nil) and a later error: after the upload completed the later read reports a closed body instead of EOF",
+})
 for n in sorted(mat):
     m = mat[n]
     ob = "yes" if m.get("failed_obligations") else "–"
@@ -81,7 +103,7 @@ for pid in sorted(T):
     out.append("**Theorems** (%d, all `Closed under the global context`): %s.\n" % (len(names), ", ".join("`%s`" % x for x in names)))
     out.append("**What they say, and the tie.** " + t['text'] + "\n")
     out.append("**Correspondence runs.** " + nt['fam'] + "\n")
-    for suf in ("-a", "-b"):
+    for suf in ("-a", "-b", "-c"):
         m = mat.get(pid + suf)
         if m:
             parts = []
